@@ -11,6 +11,7 @@ MUTS=[("m1 getinputmode ==8 -> ==9","src/pyubx2/ubxhelpers.py","len(data) == 8",
 ("m8 read mask ~0x03 -> ~0x07","src/pyubx2/ubxreader.py","(byte2[0] & ~0x03) == 0","(byte2[0] & ~0x07) == 0"),
 ("m9 _do_error ERR_LOG -> ERR_IGNORE","src/pyubx2/ubxreader.py","if self._quitonerror == ERR_LOG:","if self._quitonerror == ERR_IGNORE:"),
 ("m11 read rtcm test and -> or","src/pyubx2/ubxreader.py",'elif byte1 == b"\\xd3" and (byte2[0] & ~0x03) == 0:','elif byte1 == b"\\xd3" or (byte2[0] & ~0x03) == 0:'),
+("m13 rxmpmreq lpd == 16 -> == 15","src/pyubx2/ubxvariants.py","    if lpd == 16:","    if lpd == 15:"),
 ("m10 serialize order","src/pyubx2/ubxmessage.py","            + self._ubxID\n            + self._length","            + self._length\n            + self._ubxID"),
 ]
 out=[]
